@@ -1,0 +1,5 @@
+//go:build !verif
+
+package tcp
+
+func verifSeqNum() (uint32, bool) { return 0, false }
